@@ -2,6 +2,7 @@
 package c02
 
 import (
+	"sync"
 	"bytes"
 	"encoding/json"
 	"errors"
@@ -177,7 +178,24 @@ type Case struct {
 	Depth  int    `json:"depth,omitempty"`
 }
 
+var (
+	universeMu    sync.Mutex
+	universeCache = map[int][]reflect.Type{}
+)
+
+// universe is memoized: replays run concurrently on several workers and the construction fills a shared table.
 func universe(depth int) []reflect.Type {
+	universeMu.Lock()
+	defer universeMu.Unlock()
+	if ts, ok := universeCache[depth]; ok {
+		return ts
+	}
+	ts := universe0(depth)
+	universeCache[depth] = ts
+	return ts
+}
+
+func universe0(depth int) []reflect.Type {
 	c := typeuniv.Cfg{Depth: depth}
 	if depth >= 2 {
 		c.MaxPerLevel = 20
@@ -267,7 +285,10 @@ func extraValues(t reflect.Type) []reflect.Value {
 		}
 	}
 	if t.Kind() == reflect.Struct {
-		switch extraKind[t] {
+		universeMu.Lock()
+		kind := extraKind[t]
+		universeMu.Unlock()
+		switch kind {
 		case "inline-map":
 			v := reflect.New(t).Elem()
 			v.Field(1).Set(reflect.ValueOf(map[string]int{"a": 1, "b": 2}))
